@@ -7,6 +7,15 @@ import (
 
 // Simple helper that will take 2 or more integers, and apply an operation
 func arithmaticHelperi(equation func(int, int) int) KeyBuilderFunction {
+	return arithmaticHelperiEx(equation, false)
+}
+
+// Same as arithmaticHelperi, for operations whose right operand may not be 0 (division)
+func arithmaticHelperiDivisor(equation func(int, int) int) KeyBuilderFunction {
+	return arithmaticHelperiEx(equation, true)
+}
+
+func arithmaticHelperiEx(equation func(int, int) int, nonZero bool) KeyBuilderFunction {
 	return KeyBuilderFunction(func(args []KeyBuilderStage) (KeyBuilderStage, error) {
 		if len(args) < 2 {
 			return stageErrArgRange(args, "2+")
@@ -27,6 +36,9 @@ func arithmaticHelperi(equation func(int, int) int) KeyBuilderFunction {
 				val, ok := typedArgs[i](context)
 				if !ok {
 					return ErrorNum
+				}
+				if nonZero && val == 0 {
+					return ErrorValue
 				}
 				final = equation(final, val)
 			}
